@@ -1,6 +1,6 @@
 /-
 The drain of C02 with a non-empty send queue (repaired model, arbitrary reachable states, congestion
-window off): one stage = window re-opened by probing (if closed), a segment admitted (if nothing is
+control on or off): one stage = window re-opened by probing (if closed), a segment admitted (if nothing is
 outstanding), the head released; induction over `WaitSnd`.
 -/
 import KcpVerif.Lemmas.SysDrainAdmit2
@@ -9,23 +9,6 @@ namespace KcpVerif.SysC
 open KcpVerif KcpVerif.Gen KcpVerif.Kcp KcpVerif.Live KcpVerif.Wire KcpVerif.SysW KcpVerif.Sys
 
 /-! ### conservation: without `Send`, `|snd_queue| + snd_nxt` is constant -/
-
-theorem flush_qn (base : U32) (K : Kcp) (now : U32) (hnw : o base K.snd_nxt + K.snd_queue.length < 2 ^ 31) :
-    (flush K true now).k.snd_queue.length + o base (flush K true now).k.snd_nxt =
-      K.snd_queue.length + o base K.snd_nxt := by
-  obtain ⟨pw3, tp3, h3⟩ := flF3_frame K now
-  obtain ⟨m, hm, a1, _, a3, _⟩ := admitSegs_spec (flF3 K now).k.conv (flF3 K now).k.snd_una (effWnd (flF3 K now).k) now
-    (flF3 K now).k.snd_queue (flF3 K now).k.snd_buf (flF3 K now).k.snd_nxt 0
-  have e2 : (flF3 K now).k.snd_queue = K.snd_queue := by rw [h3]
-  have e4 : (flF3 K now).k.snd_nxt = K.snd_nxt := by rw [h3]
-  obtain ⟨pw, tp, st, ss, cw, inc, hk⟩ := flush_frame K true now
-  rw [hk]
-  show (flAd K now).queue.length + o base (flAd K now).nxt = _
-  unfold flAd
-  rw [a1, a3, e2, e4]
-  rw [e2] at hm
-  rw [List.length_drop, o_add base K.snd_nxt m (by omega)]
-  omega
 
 theorem qn_step {p : Par} {s : State} {gab gba : GLink} (h : Cons p s gab gba) (hnw : NoWrap p.base s)
     (ev : Ev) (hev : isSend ev = false) :
@@ -167,21 +150,27 @@ theorem head_stage {p : Par} {IA IB Rmax : Nat} {s : State} (hi : Inv p IA IB s)
         ⟨⟨x, rest, hbb, rfl, Or.inr ⟨h0, hR0⟩⟩, hi.ta.iv, by have := hi.ta.nf; omega, by omega, hrb⟩ evs hsm (by omega)
 
 /-- the admission phase along a run -/
-theorem adm_run {p : Par} {IA IB Rmax : Nat} (hIA : IA < 2 ^ 30) (T : Nat) (evs : List Ev) : ∀ (s : State), Inv3 p IA IB s →
+theorem adm_run {p : Par} {IA IB Rmax : Nat} (hIA : IA < 2 ^ 30) (T0 T1 : Nat) (hT : T0 + IA ≤ T1) (evs : List Ev) :
+    ∀ (s : State), Inv3 p IA IB s →
     RunP (FullHyp p Rmax IA) s evs → (∀ ev ∈ evs, isSend ev = false) →
-    s.A.snd_buf = [] → s.A.snd_queue ≠ [] → s.A.rmt_wnd ≠ 0 → s.nfA ≤ T → s.now ≤ T →
-    (∃ a b, evs = a ++ b ∧ (Sys.run s a).A.snd_buf ≠ []) ∨ (Sys.run s evs).now ≤ T := by
+    s.A.snd_buf = [] → s.A.snd_queue ≠ [] → s.A.rmt_wnd ≠ 0 → AdmPh T0 T1 s →
+    (∃ a b, evs = a ++ b ∧ (Sys.run s a).A.snd_buf ≠ []) ∨ (Sys.run s evs).now ≤ T1 := by
   induction evs with
-  | nil => intro s _ _ _ _ _ _ _ hn; exact Or.inr hn
+  | nil =>
+    intro s _ _ _ _ _ _ hph
+    right
+    rcases hph with ⟨_, b⟩ | ⟨_, _, b⟩
+    · show s.now ≤ T1; omega
+    · exact b
   | cons ev rest ih =>
-    intro s hi hr hns hb hq h0 hnf hn
+    intro s hi hr hns hb hq h0 hph
     obtain ⟨gab, gba, hc⟩ := hi.inv.cons
     have hnw := hr.1.1.noWrap
     have hi' := inv3_step hi hIA hnw hr.1.2.1 ev (RunP.head hr.2).2.1
-    rcases adm_core hc hnw T hb hq h0 hi.fresh hr.1.2.2.2 hnf hn ev (hns ev (List.mem_cons_self ..)) with
-      ⟨c1, c2, c3, c4⟩ | c
+    rcases adm_core hc hnw IA T0 T1 hT hi.inv.ta.iv hb hq h0 hi.fresh hr.1.2.2.2 hph ev (hns ev (List.mem_cons_self ..)) with
+      ⟨c1, c2, c3⟩ | c
     · rcases ih _ hi' hr.2 (fun e he => hns e (List.mem_cons_of_mem _ he)) c1 c2
-        (rmt_keep_step hc hnw hi.fresh h0 ev) c3 c4 with ⟨a, b, e1, e2⟩ | h2
+        (rmt_keep_step hc hnw hi.fresh h0 ev) c3 with ⟨a, b, e1, e2⟩ | h2
       · exact Or.inl ⟨ev :: a, b, by rw [e1]; rfl, e2⟩
       · exact Or.inr h2
     · exact Or.inl ⟨[ev], rest, rfl, c⟩
@@ -190,7 +179,7 @@ theorem adm_run {p : Par} {IA IB Rmax : Nat} (hIA : IA < 2 ^ 30) (T : Nat) (evs 
 
 /-- the length of one stage of the general drain: a probe round, an admission, a progress step -/
 def fullStage (Rmax IA IB D : Nat) : Nat :=
-  (IKCP_PROBE_LIMIT + 2 * IA + D + IB + D + 1) + (IA + 1) + (Rmax + IA + D + IB + D)
+  (IKCP_PROBE_LIMIT + 2 * IA + D + IB + D + 1) + (2 * IA + 1) + (Rmax + IA + D + IB + D)
 
 /-- **one stage of the general drain**: something is waiting ⇒ `snd_una` advances within `fullStage` -/
 theorem stage_full {p : Par} {IA IB Rmax : Nat} {s : State} (hi : Inv3 p IA IB s) (hIA : IA < 2 ^ 29)
@@ -225,10 +214,11 @@ theorem stage_full {p : Par} {IA IB Rmax : Nat} {s : State} (hi : Inv3 p IA IB s
         rw [hb1, hq] at hw1'
         simp at hw1'
       obtain ⟨a2, b2, e2, hq2, ht2⟩ := ev_bound (P := FullHyp p Rmax IA) (Q := fun s' => s'.A.snd_buf ≠ [])
-        (Sys.run s a) ((Sys.run s a).now + IA) b
+        (Sys.run s a) ((Sys.run s a).now + 2 * IA) b
         (fun c d ecd hrc hn => by
-          rcases adm_run (by omega) ((Sys.run s a).now + IA) c (Sys.run s a) hi1 hrc
-            (fun ev he => hnsb ev (by rw [ecd]; exact List.mem_append_left _ he)) hb1 hq hq1 hi1.inv.ta.nf (by omega) with h1 | h1
+          rcases adm_run (by omega) ((Sys.run s a).now + IA) ((Sys.run s a).now + 2 * IA) (by omega) c (Sys.run s a) hi1 hrc
+            (fun ev he => hnsb ev (by rw [ecd]; exact List.mem_append_left _ he)) hb1 hq hq1
+            (Or.inl ⟨hi1.inv.ta.nf, by omega⟩) with h1 | h1
           · exact h1
           · omega)
         hrb (by omega)
@@ -285,7 +275,7 @@ theorem freshBa_nil (s : State) (h : s.ba = []) : FreshBa s := by
 def fullChk (base : U32) (Rmax IA : Nat) (s : State) : Bool :=
   decide (o base s.A.snd_nxt + s.A.snd_queue.length < 2 ^ 30 ∧ s.B.rcv_wnd.toNat < 2 ^ 30) &&
   decide (s.B.rcv_queue.length < s.B.rcv_wnd.toNat ∧ s.B.rcv_wnd.toNat < 65536) && tmrChk Rmax IA s &&
-  decide (s.A.nocwnd ≠ 0 ∧ s.A.snd_wnd ≠ 0 ∧ s.A.snd_wnd.toNat < 2 ^ 31)
+  decide (s.A.snd_wnd ≠ 0 ∧ s.A.snd_wnd.toNat < 2 ^ 31)
 
 def runFullChk (base : U32) (Rmax IA : Nat) : State → List Ev → Bool
   | s, [] => fullChk base Rmax IA s
